@@ -148,3 +148,11 @@ contract('find_outside_quotes#spec', qual='find_outside_quotes', module=MSV, pro
                              '       and substr(haystack, j, len(needle)) == needle))']),
                 # the inner scan over the quote characters (only b'"' here): no quote character matched so far
                 1: dict(inv=['quoted is None', 'not escaped', 'implies(_k >= 1, substr(haystack, i, 1) != b\'"\')'])})
+
+bounded(['C20'], 'bounded/envelope_roundtrip.py',
+        'real Envelope over generated messages with a well-formed header block (21 header sets incl. folded lines, 8-bit '
+        'values, duplicate names, empty values; CRLF or LF; 11 bodies incl. NUL, lone CR, leading blank lines, dot lines): '
+        'parse+flatten keeps the body bytes and the header fields (names, order, values, CRLF-normalised); the same for '
+        'copy() (no shared mutable state) and a pickle round trip; re-parsing the flattened output is a fixed point; '
+        'encode_7bit on 4 UTF-8 texts x {base64, quoted-printable, no encoder}: pure ASCII decoding to the same text, or '
+        'UnicodeDecodeError without an encoder; 800 (thorough 3000) random byte strings never raise')
